@@ -131,6 +131,10 @@ func (tx *Tx) Rollback() error {
 	}
 
 	defer tx.restoreAutoCommit()
+	if tx.target == nil {
+		// XA mode: the branch is driven with XA commands, there is no local transaction object
+		return nil
+	}
 	return tx.target.Rollback()
 }
 
@@ -150,6 +154,9 @@ func (tx *Tx) init() error {
 // commitOnLocal
 func (tx *Tx) commitOnLocal() error {
 	defer tx.restoreAutoCommit()
+	if tx.target == nil {
+		return nil
+	}
 	return tx.target.Commit()
 }
 
